@@ -156,9 +156,11 @@ def Op.mulGF (cx : MassCtx R) (A : Op R) (f : GF R) : Except Err (GF R) :=
   if A.domain ≠ f.space then .error .valueError
   else .ok (.ofProjections A.range A.dual (matvec A.W (f.coefficients cx)))
 
-/-- `BlockedOperatorBase.__mul__(list of GridFunction)` -/
+/-- `BlockedOperatorBase.__mul__(list of GridFunction)`: the list must have one function per block column and
+function `j` must live in `domains[j]` -/
 def BlockOp.mulGFs (cx : MassCtx R) (A : BlockOp R) (fs : List (GF R)) : Except Err (List (GF R)) :=
   if fs.length ≠ A.domains.length then .error .valueError
+  else if fs.map GF.space ≠ A.domains then .error .valueError
   else gridFunctionListFromProjections (matvec A.W (coefficientsFromList cx fs)) A.ranges A.duals
 
 /-- linear operator handed to a Krylov routine (a SciPy `LinearOperator`) -/
